@@ -259,7 +259,12 @@ where
 
                 // Reconstruct hash from relative path
                 let relative_path = blob_path.strip_prefix(cas_root).ok();
-                match relative_path.and_then(|p| BlobHash::from_relative_path(p).ok()) {
+                // Only the canonical spelling of a hash (lower-case hex split 2/2/60) names a
+                // blob; any other entry whose components happen to hex-decode (upper case,
+                // differently placed separators) is a stray file, not a blob of that hash.
+                match relative_path.and_then(|p| {
+                    BlobHash::from_relative_path(p).ok().filter(|hash| hash.relative_path() == p)
+                }) {
                     Some(hash) => {
                         seen_blobs.insert(hash);
 
